@@ -326,6 +326,9 @@ func createWriterWithCtx(obs kanzi.OutputBitStream, ctx map[string]any) (*Writer
 		return nil, &IOError{msg: err.Error(), code: kanzi.ERR_INVALID_PARAM}
 	}
 
+	// The codecs select their variants by comparing these names: make them canonical
+	ctx["entropy"], _ = entropy.GetName(this.entropyType)
+	ctx["transform"], _ = transform.GetName(this.transformType)
 	this.blockSize = int(bSize)
 	this.available = 0
 	nbBlocks := 0
@@ -1232,6 +1235,8 @@ func (this *Reader) validateHeaderless() error {
 		if err != nil {
 			return &IOError{msg: err.Error(), code: kanzi.ERR_INVALID_PARAM}
 		}
+
+		this.ctx["entropy"], _ = entropy.GetName(this.entropyType)
 	} else {
 		return &IOError{msg: "Missing entropy in headerless mode", code: kanzi.ERR_MISSING_PARAM}
 	}
@@ -1248,6 +1253,8 @@ func (this *Reader) validateHeaderless() error {
 		if err != nil {
 			return &IOError{msg: err.Error(), code: kanzi.ERR_INVALID_PARAM}
 		}
+
+		this.ctx["transform"], _ = transform.GetName(this.transformType)
 	} else {
 		return &IOError{msg: "Missing transform in headerless mode", code: kanzi.ERR_MISSING_PARAM}
 	}
